@@ -370,9 +370,10 @@ def edge_table(model, Kt, thr, thin=False):
         else:
             cls = "E"
         A, B = Vs[e], Vs[(e + 1) % k]
-        # chord_allow: how far a point of the straight substitute may be from the chord (half-plane:
-        # the library's vertical segment through the first end point is within |x_B - x_A| of it)
-        chord_allow = tol_pt(np.concatenate([A, B])) + (abs(B[0] - A[0]) if model == "halfspace" else 0.0)
+        # chord_allow: how far a point of the straight substitute may be from the chord, and its last point from the
+        # vertex B (both vertices are finite points of the view: the substitute starts and ends at the two vertices;
+        # a vertical segment through the first end point that stops |x_B - x_A| short of B is not accepted)
+        chord_allow = tol_pt(np.concatenate([A, B]))
         if cls == "S":
             tv = tol_pt(np.concatenate([A, B]))
             allow = chord_allow
@@ -513,8 +514,7 @@ def thin_domain(model, Kt, thr, dthr):
 
 def vertex_tolerances(edges):
     """Per vertex j: how far from it a path node may be that is 'at' the vertex - the position tolerance of the edge
-    that leaves it and the reach of the edge that arrives (a half-plane edge above / around RADIUS_THRESHOLD may
-    arrive on the vertical through its first end point, |x_B - x_A| away)."""
+    that leaves it and the reach of the edge that arrives."""
     k = len(edges)
     return [max(edges[j]["tv"], edges[j - 1]["allow"] if edges[j - 1]["cls"] == "A" else edges[j - 1]["chord_allow"])
             for j in range(k)]
@@ -524,7 +524,7 @@ def visit_order_violations(model, Kt, verts, codes, thr, site):
     """The nodes of the path (end points of its pieces), each matched with the vertex it coincides with (within
     vertex_tolerances; under thin_domain at most one vertex qualifies), visit
     the vertices in the cyclic order v0, v1, ..., v(k-1), v0: consecutive repetitions count once, nodes that are at
-    no vertex (joints between the pieces of one arc, the corner of a half-plane vertical substitute) are in transit."""
+    no vertex (joints between the pieces of one arc) are in transit."""
     try:
         pcs = svgpath.pieces(verts, codes)
     except svgpath.PathError as e:
@@ -711,8 +711,8 @@ def case_polygon_composites(case):
 # geodesics and segments
 # ------------------------------------------------------------------------------------------
 def straight_patch_check(model, d, ka, kb, patch, ax, site, ideal):
-    """The straight substitute: a PathPatch with one straight piece between the end points (disc),
-    or the vertical line (half-plane; to beyond the top of the view when one end is infinity)."""
+    """The straight substitute: a PathPatch with one straight piece between the end points (both models: the chord),
+    or the vertical ray to beyond the top of the view (half-plane, when one end is the point at infinity)."""
     out = []
     if type(patch).__name__ != "PathPatch":
         return [V("%s/straight/artist-type/%s" % (site, model), "expected the straight PathPatch, got %s" % type(patch).__name__)]
@@ -735,7 +735,7 @@ def straight_patch_check(model, d, ka, kb, patch, ax, site, ideal):
         return out
     A, B = dg.model_coords(model, ka), dg.model_coords(model, kb)
     tol = max(tol_ideal(A), tol_ideal(B)) if ideal else tol_pt(np.concatenate([A, B]))
-    allow = tol + (abs(B[0] - A[0]) if model == "halfspace" else 0.0)
+    allow = tol
     direct = max(np.linalg.norm(P - A), np.linalg.norm(Q - B))
     swapped = max(np.linalg.norm(P - B), np.linalg.norm(Q - A))
     if min(direct, swapped) > allow:
@@ -1544,6 +1544,178 @@ EXTRA_POINTS = [
 ]
 
 
+# half-plane end points (model coordinates, Klein radius < 0.9) of edges that are far from vertical although their
+# circle radius exceeds RADIUS_THRESHOLD = 80: (radius, |x_B - x_A|) = (87.8, 0.1), (94.3, 0.05), (135.4, 0.03)
+HP_STRAIGHT = [([0.0, 0.3], [0.1, 4.2]), ([1.4, 0.9], [1.35, 3.2]), ([-0.6, 0.5], [-0.57, 2.9])]
+
+
+def halfplane_straight_cases(sub):
+    """Polygons and segments of the half-plane model with an edge of HP_STRAIGHT (after the drawing transform): the
+    straight edge first, reversed, in the middle and last; third / fourth vertices from the lattice `sub`."""
+    for tf in TFS:
+        for (p, q) in HP_STRAIGHT:
+            P, Q = [[float(c) for c in hyp.to_klein("halfspace", np.array(x))] for x in (p, q)]
+            if TFS[tf] is not None:
+                P, Q = preimage(tf, P), preimage(tf, Q)
+            X = [x for x in sub[:8] if math.dist(x, P) >= MIN_SEP and math.dist(x, Q) >= MIN_SEP]
+            base = {"model": "halfspace", "tf": tf}
+            for head in ([P, Q], [Q, P]):
+                tails = [[x] for x in X] + [[X[i], X[(i + 3) % len(X)]] for i in range(len(X))]
+                yield dict(base, call="polygons", head=head, tails=[tl for tl in tails if nondegenerate(head + tl)])
+            for x in X[:4]:
+                tails = [[Q], [Q, X[-1]], [X[-1], Q]] if x != X[-1] else [[Q]]
+                yield dict(base, call="polygons", head=[x, P], tails=[tl for tl in tails if nondegenerate([x, P] + tl)])
+            yield dict(base, call="geodesics", kind="segment", a=P, bs=[Q] + X[:2])
+            yield dict(base, call="geodesics", kind="segment", a=Q, bs=[P] + X[:2])
+
+
+def infinity_polygon_violations(K, vs, cs, d, thr):
+    """Half-plane polygon with exactly one vertex at the point at infinity (Klein (1,0)), the others interior points of
+    the view: one continuous path (one MOVETO) that starts at the first vertex, passes the finite vertices in
+    order and returns to the first vertex, where the vertex at infinity is a point above the top of the view on the
+    vertical through the neighbouring finite vertex; every drawn point inside the view lies on an edge (a vertical ray,
+    the arc, or the chord above RADIUS_THRESHOLD)."""
+    site, model = "polygon-vertex-at-infinity", "halfspace"
+    k = len(K)
+    inf = [i for i in range(k) if dg.is_infinity(K[i])]
+    assert len(inf) == 1
+    i0 = inf[0]
+    try:
+        pcs = svgpath.pieces(vs, cs)
+    except svgpath.PathError as e:
+        return [V("%s/path-malformed" % site, str(e))]
+    kinds = [p.kind for p in pcs]
+    if not pcs or kinds[0] != "M" or kinds.count("M") != 1 or any(kd not in ("L", "C4", "Z") for kd in kinds[1:]):
+        return [V("%s/codes" % site, "codes %s: expected one MOVETO followed by LINETO / CURVE4 pieces" % svgpath.code_summary(cs))]
+    if not np.all(np.isfinite(np.asarray(vs, dtype=float))):
+        return [V("%s/non-finite" % site, "the path has non-finite vertices")]
+    top = float(d.ylim[1])
+    Vm = {i: dg.model_coords(model, K[i]) for i in range(k) if i != i0}
+    # a vertex reached through the circle parameters of an adjacent arc edge carries that edge's tol_arc(r)
+    tolv = {i: 10 * tol_pt(Vm[i]) for i in Vm}
+    circ = {}
+    for e in range(k):
+        a, b = e, (e + 1) % k
+        if a != i0 and b != i0:
+            circ[e] = dg.geodesic_circle(model, K[a], K[b])
+            if circ[e][1] < thr * (1.0 + BAND):
+                for i in (a, b):
+                    tolv[i] = max(tolv[i], 10 * tol_pt(Vm[i]) + tol_arc(circ[e][1]))
+    # edges and their tolerances
+    edges = []
+    for e in range(k):
+        a, b = e, (e + 1) % k
+        if a == i0 or b == i0:
+            f = b if a == i0 else a
+            edges.append(("ray", Vm[f], None, tolv[f]))
+        else:
+            c, r = circ[e]
+            if r > thr * (1.0 - BAND):
+                edges.append(("chord", Vm[a], Vm[b], tolv[a] + tolv[b]))
+            if r < thr * (1.0 + BAND):
+                edges.append(("arc", (c, r), (Vm[a], Vm[b]), tol_arc(r) + BEZ * r))
+    out = []
+
+    def at_vertex(P, i, nb):
+        if i != i0:
+            return bool(np.linalg.norm(P - Vm[i]) <= tolv[i])
+        return bool(P[1] >= top and abs(P[0] - Vm[nb][0]) <= tolv[nb])
+    P0, P1 = pcs[0].end, pcs[-1].end
+    if not at_vertex(P0, 0, 1 % k):
+        out.append(V("%s/start-vertex" % site, "the path starts at %s; the first vertex is %s" % (
+            fmt(P0), "the point at infinity (expected: above the top y=%g of the view, over the second vertex %s)" % (top, fmt(Vm[1 % k])) if i0 == 0 else fmt(Vm[0]))))
+    if not at_vertex(P1, 0, k - 1):
+        out.append(V("%s/not-closed" % site, "the path ends at %s; the first vertex is %s" % (
+            fmt(P1), "the point at infinity (expected: above the top of the view, over the last vertex %s)" % fmt(Vm[k - 1]) if i0 == 0 else fmt(Vm[0]))))
+    seq = []
+    for p in pcs:
+        hits = [i for i in Vm if np.linalg.norm(p.end - Vm[i]) <= tolv[i]]
+        if hits and (not seq or seq[-1] != hits[0]):
+            seq.append(hits[0])
+    want = [i for i in range(k) if i != i0] + ([0] if i0 != 0 else [])
+    if seq != want:
+        out.append(V("%s/vertex-order" % site, "the path passes the finite vertices in the order %s, expected %s" % (seq, want)))
+    for p in pcs[1:]:
+        for x in svgpath.sample_piece(p):
+            if x[1] > top:
+                continue
+            best = None
+            for kind, u, w, tol in edges:
+                if kind == "ray":
+                    dev = max(abs(x[0] - u[0]), max(0.0, u[1] - x[1]))
+                elif kind == "chord":
+                    dev = dg.dist_to_segment(x, u, w)
+                else:
+                    dev = max(dg.circle_arc_residual(u[0], u[1], w[0], w[1], x))
+                best = dev / tol if best is None else min(best, dev / tol)
+            if not (x[1] > 0 and best <= 1.0):
+                out.append(V("%s/off-edge" % site, "%s piece: drawn point %s inside the view lies on no edge of the polygon (%.3g times the tolerance)" % (p.kind, fmt(x), best)))
+                return out
+    return out
+
+
+def case_halfplane_infinity_polygons(case):
+    """One figure (half-plane, identity transform); every polygon of case["polys"] has exactly one vertex at (1, 0)."""
+    from geometry_tools import hyperbolic
+    v, t, summ = [], 0, set()
+    try:
+        d = new_drawing("halfspace", "id")
+        thr = threshold()
+        for K in case["polys"]:
+            K = np.array(K, dtype=float)
+            poly = hyperbolic.Polygon(kpoint(K))
+            before = all_artists()
+            d.draw_polygon(pre_query(poly))
+            t += 1
+            new = new_artists(before)
+            vv = located(new, d, 1, "polygon-vertex-at-infinity/halfspace")
+            if not vv:
+                vs, cs = data_path(new[0][0], new[0][1])
+                vv = infinity_polygon_violations(K, vs, cs, d, thr)
+                summ.add(svgpath.code_summary(cs))
+            for x in vv:
+                x["msg"] = "vertices (Klein) %s: %s" % (fmt(K), x["msg"])
+            v += vv
+    finally:
+        close_all()
+    return {"v": v[:6], "t": t, "o": "inf/" + ";".join(sorted(summ)), "nt": t > 0}
+
+
+def halfplane_infinity_cases(sub):
+    """Triangles and quadrilaterals with the half-plane's point at infinity as first, second, third (, last) vertex and the
+    other vertices from the lattice (finite, in the view, abscissae >= 0.05 apart from each other)."""
+    INF = [1.0, 0.0]
+    H = {i: dg.model_coords("halfspace", np.array(sub[i])) for i in range(len(sub))}
+    ok = [i for i in range(len(sub)) if abs(H[i][0]) <= VIEW_X]
+    pairs = [(i, j) for i in ok for j in ok if i != j and abs(H[i][0] - H[j][0]) >= 0.05]
+    for pos in range(3):
+        polys = []
+        for (i, j) in pairs:
+            P = [sub[i], sub[j]]
+            P.insert(pos, INF)
+            polys.append(P)
+        for s in range(0, len(polys), 40):
+            yield {"polys": polys[s:s + 40]}
+    quads = []
+    for (i, j) in pairs[::5]:
+        for l in ok:
+            if l in (i, j) or min(abs(H[l][0] - H[i][0]), abs(H[l][0] - H[j][0])) < 0.05 or not nondegenerate([sub[i], sub[j], sub[l]]):
+                continue
+            for pos in (0, 2, 3):
+                P = [sub[i], sub[j], sub[l]]
+                P.insert(pos, INF)
+                quads.append(P)
+    for s in range(0, len(quads), 40):
+        yield {"polys": quads[s:s + 40]}
+
+
+def case_halfplane_straight(case):
+    r = case_polygons(case) if case["call"] == "polygons" else case_geodesics(case)
+    for x in r["v"]:
+        x["key"] += "/large-radius-non-vertical"
+    return r
+
+
 def point_lattice(seed, m_generic):
     """Corner + generic points of mc.lattice plus the special points; a point closer than MIN_SEP to
     an earlier one is dropped (short edges are a conditioning question, not a drawing question)."""
@@ -1869,8 +2041,8 @@ def run(ctx):
     ctx.assume("half-plane: finite vertices/end points have |x| <= 7 (inside the default view's off-screen bounds +-7.2); ideal "
                "points are the point at infinity exactly or >= 0.1 rad away from it; other tuples are skipped and counted as 'skipped'")
     ctx.assume("edges whose oracle circle radius lies within 1e-4 (relative) of RADIUS_THRESHOLD may be drawn either way")
-    ctx.assume("above RADIUS_THRESHOLD the accepted straight substitute is the chord; in the half-plane the library's vertical "
-               "segment through the first end point is accepted too (every drawn point within |x_B - x_A| of the chord)")
+    ctx.assume("above RADIUS_THRESHOLD the accepted straight substitute is the chord between the two end points, in both conformal models "
+               "(it starts and ends at the vertices / end points); in the half-plane the vertical ray to beyond the top of the view when one end is the point at infinity")
     ctx.assume("horospheres of half-plane radius >= RADIUS_THRESHOLD with finite centre: nothing demanded (substituted by a rectangle)")
     ctx.assume("the order of the artists of a composite object and of the data points of a composite point is not fixed by the property")
     ctx.assume("colours, z-order, line styles are not examined")
@@ -1962,6 +2134,21 @@ def run(ctx):
                 domains={"segments": "all ordered pairs of the %d-point lattice" % len(pts),
                          "geodesics": "all ordered pairs of %d ideal directions incl. antipodal pairs and the point at infinity" % len(dirs),
                          "ideal directions": dirs}, chunk=4)
+
+    # half-plane: edges above RADIUS_THRESHOLD that are far from vertical
+    product("halfplane-straight-edges", "checks.c19:case_halfplane_straight", list(halfplane_straight_cases(sub)),
+            domains={"model": "halfspace", "transforms": list(TFS), "straight edges (half-plane coordinates, after the drawing transform)": HP_STRAIGHT,
+                     "polygons": "the edge first / reversed with every third vertex of 8 lattice points and quadrilaterals; the edge in the middle and last",
+                     "segments": "the edge in both directions", "keys": "the polygon / geodesic keys with the suffix /large-radius-non-vertical"}, chunk=2)
+
+    ctx.assume("half-plane polygons with one vertex at the point at infinity (section halfplane-vertex-at-infinity; the other vertices interior points of the view "
+               "with abscissae >= 0.05 apart): the vertex at infinity is drawn as a point above the top of the view on the vertical through the neighbouring "
+               "finite vertex; the path may jump between the two verticals above the top of the view only")
+    hic = list(halfplane_infinity_cases(sub[:10]))
+    product("halfplane-vertex-at-infinity", "checks.c19:case_halfplane_infinity_polygons", hic,
+            domains={"model": "halfspace", "transform": "id", "polygons": "triangles (inf, A, B), (A, inf, B), (A, B, inf) for all ordered pairs A, B of 10 lattice points; "
+                     "quadrilaterals with the vertex at infinity first, third, last for every 5th pair and every third point",
+                     "clauses": ["one MOVETO", "starts and ends at the first vertex", "finite vertices in order", "every drawn point inside the view on an edge"]}, chunk=1)
 
     # composites: 3 or 4 segments / geodesics in one call
     R = 6 if q else 24
